@@ -39,7 +39,7 @@ const SPECIALS: &[&[&str]] = &[
     &["\"plain\"", "\"a {1 + 1} b\"", "\"esc \\\" \\\\ \\n \\t end\"", "\"{{ literal }}\"", "\"{2 m} and {\"inner\"}\"", "\"{1/3:.3f}\"", "\"{12:>6}|\"", "\"nested {\"a {1 + 2} b\"} c\""],
     &["@name(\"Foo bar\")\n@url(\"https://example.com/a?b=c\")\n@description(\"Some text, with a comma\")\n@metric_prefixes\n@aliases(foos, fo: short)\nunit foo_u = 3 m", "2 kilofoo_u + 1 fo", "@aliases(quux: both)\n@binary_prefixes\nunit bar_u: Length = 2 foo_u", "1 kibibar_u -> m"],
     &["dimension Dim_a", "unit base_a: Dim_a", "dimension Dim_c = Length^2 / Time = Area / Time", "unit pixel_b", "2 pixel_b * 3", "@metric_prefixes\n@aliases(sq: short)\nunit squib: Dim_a^2 / Length = 3 base_a^2 / m"],
-    &["fn f_g<T: Dim>(x: T, y: T) -> T^2 = x * y", "fn f_h(x) = x^2 + x", "fn f_i(x: Length, y: Time) -> Velocity = x / y", "fn f_j(x: Scalar) -> Scalar = y + z\n  where y = x * 2\n  and z = y + 1", "fn f_k<A: Dim, B: Dim>(a: A, b: B) = a^2 / b", "f_j(2) + f_h(3)", "fn f_l(xs: List<Length>) -> Length = sum(xs)", "fn f_m(f: Fn[(Scalar) -> Scalar], x: Scalar) -> Scalar = f(f(x))", "f_m(sqr, 3)"],
+    &["fn f_g<T: Dim>(x: T, y: T) -> T^2 = x * y", "fn f_h(x) = x^2 + x", "fn f_i(x: Length, y: Time) -> Velocity = x / y", "fn f_j(x: Scalar) -> Scalar = y + z\n  where y = x * 2\n  and z = y + 1", "fn f_k<A: Dim, B: Dim>(a: A, b: B) = a^2 / b", "f_j(2) + f_h(3)", "fn f_l(xs: List<Length>) -> Length = sum(xs)", "fn f_m(f: Fn[(Scalar) -> Scalar], x: Scalar) -> Scalar = f(f(x))", "f_m(sqr, 3)", "fn f_p(a: Length, t) = a / t + 1 m/s", "fn f_q(n, s: String, k) = if n > k then s else \"x\"", "f_p(3 m, 2 s)", "f_q(1, \"a\", 2)"],
     &["@name(\"Named fn\")\n@description(\"Doc text\")\n@url(\"https://example.com\")\n@example(\"f_n(1)\", \"An example\")\nfn f_n(x: Scalar) -> Scalar = x + 1", "f_n(2)", "@name(\"A constant\")\n@aliases(c_alias)\nlet c_n: Length = 5 m", "c_alias * 2"],
     &["let a_o: Length = 2 m", "let b_o: Velocity = a_o / 3 s", "let c_o: Scalar = a_o / (4 cm) -> 1", "print(a_o)", "print(\"{a_o} / {b_o}\")", "assert_eq(a_o, 200 cm)", "assert_eq(a_o, 2.001 m, 1 cm)", "assert(a_o > 1 m)", "type(a_o * b_o)"],
     &["1e-9 m", "1.5e6", "123456789", "0.000001", "1_000_000 m", "0x1F", "0b101 + 0o7", "1e3 m / 1e-3 s", "NaN", "inf", "-inf"],
@@ -124,6 +124,60 @@ fn classify(input: &str, echo: &str, base: &str) -> String {
     });
     if generic_with_where {
         return format!("{base}:where-clause-types-in-generic-function");
+    }
+    // same root cause without a where-clause: the INPUT declares type parameters (`fn f<D: Dim>`)
+    // and leaves a parameter without annotation; the echo then names all quantified variables
+    // A, B, … but keeps the user's name in the annotations it copies (`a: D`)
+    let generic_with_inferred_parameter = input.lines().any(|l| {
+        let l = l.trim_start();
+        let Some(rest) = l.strip_prefix("fn ") else { return false };
+        let Some(open) = rest.find('(') else { return false };
+        if !rest[..open].contains('<') {
+            return false;
+        }
+        // parameter list up to the matching parenthesis
+        let mut depth = 0i32;
+        let mut params = String::new();
+        for ch in rest[open..].chars() {
+            match ch {
+                '(' | '[' => {
+                    depth += 1;
+                    if depth > 1 {
+                        params.push(ch);
+                    }
+                }
+                ')' | ']' => {
+                    depth -= 1;
+                    if depth == 0 {
+                        break;
+                    }
+                    params.push(ch);
+                }
+                _ => params.push(ch),
+            }
+        }
+        let mut level = 0i32;
+        let mut cur = String::new();
+        let mut items = vec![];
+        for ch in params.chars() {
+            match ch {
+                '(' | '[' | '<' => level += 1,
+                ')' | ']' | '>' => level -= 1,
+                ',' if level == 0 => {
+                    items.push(std::mem::take(&mut cur));
+                    continue;
+                }
+                _ => {}
+            }
+            cur.push(ch);
+        }
+        if !cur.trim().is_empty() {
+            items.push(cur);
+        }
+        items.iter().any(|p| !p.contains(':'))
+    });
+    if generic_with_inferred_parameter {
+        return format!("{base}:generic-function-with-inferred-parameter");
     }
     // a where-variable whose type is polymorphic (`where w = 0`) is echoed as `w: A = 0` with a
     // fresh type-variable name that is not declared anywhere (same family as `forall`)
